@@ -138,7 +138,7 @@ def gen_input(rng, kind, delim):
     return data
 
 
-def gz_partial_drain_input(rng, bs, limit=6 << 20):
+def gz_partial_drain_input(rng, bs, limit=400 << 20):
     """Hardly compressible text lines (base64 alphabet, 76 per line) such that, written through ONE gzip shard in
     blocks of bs bytes, some write() ends with 1..5 free bytes in the writer's 4096-byte output buffer: the next
     write()/flush() must then hand over exactly the filled part (C15's ensure_output split; the seeded C15-m3 /
@@ -146,7 +146,10 @@ def gz_partial_drain_input(rng, bs, limit=6 << 20):
     parameters; the input is cut two blocks behind the first hit.  Returns (data, free bytes at the hit) or None."""
     import zlib
     alpha = b"ABCDEFGHIJKLMNOPQRSTUVWXYZabcdefghijklmnopqrstuvwxyz0123456789+/"
-    for _ in range(6):
+    # one attempt has about 73 emission events, each hitting with probability 5/4096: about 9% per attempt.
+    # 300 attempts (0.1 s each, 11 expected) leave a miss probability below 1e-12; with 6 attempts the search
+    # failed more often than not and the thorough tier raised a (false) broken-tie alarm on the unchanged tree.
+    for _ in range(300):
         raw = rng.getrandbits(8 * 76 * 16000).to_bytes(76 * 16000, "little")       # 1.2 MB per attempt
         text = bytes(alpha[b & 63] for b in raw)
         data = b"\n".join(text[i:i + 76] for i in range(0, len(text), 76)) + b"\n"
